@@ -164,8 +164,12 @@ class Scheduler(Subject):
             True if the corresponding PFDL file was valid and the Scheduler could be started.
         """
         if self.pfdl_file_valid:
-            self.fire_event(Event(event_type=START_PRODUCTION_TASK, data={}))
-            self.running = True
+            start_event = Event(event_type=START_PRODUCTION_TASK, data={})
+            # only an order that has not been started yet is started; the flag is set before the
+            # net is evaluated, because the order may already complete during this evaluation
+            if start_event in self.awaited_events:
+                self.running = True
+                self.fire_event(start_event)
             return True
         return False
 
